@@ -81,6 +81,16 @@ def tasks(tier):
                    durs=[0, 1], strat_menu=[1, 9], strat_free=True, max_unknown=None,
                    sleeper="policy" if "Set" in e else "call")
         out.append({"family": "delay-same-object", "cfg": cfg, "entry": e, "bound": 1, "weight": 3})
+    # a raising before_sleep hook: the sleeper still gets the delay; class pattern X, Y, X
+    for idx, e in itertools.product([0, 1, "always"], Q4):
+        cfg = dict(M=4, strat=TABLES[0], alphabet=["ok", "x:T", "r:T"], strat_menu=[1, 3], strat_free=True,
+                   max_unknown=None, deadline=40, before_sleep="call", sleeper="call",
+                   faults=[("before_sleep", idx, "RuntimeError")])
+        out.append({"family": "delay-hook-fault", "cfg": cfg, "entry": e, "bound": 0})
+    for tb, e in itertools.product([TABLES[1], {"default": "ctx", "per": {"T": "ctx", "R": "legacy"}}], Q4):
+        cfg = dict(M=4, strat=tb, alphabet=["ok", "x:T", "x:R", "x:S"], strat_menu=[1, 5, 9], strat_free=True,
+                   max_unknown=None, deadline=60)
+        out.append({"family": "delay-class-pattern", "cfg": cfg, "entry": e, "bound": 0})
     # strategy answers that are ints (seconds), not floats
     for tb, e in itertools.product(TABLES[:2], Q4):
         cfg = dict(M=3, strat=tb, alphabet=["ok", "x:T", "r:T"], strat_menu=["int:1", "int:2", 1, "int:0"],
@@ -219,7 +229,8 @@ def monitor(w, cfg):
             for sl in a.sleeps:
                 if sl[2] != delay:
                     v.append(("c05.delay-sleeper", f"sleeper received {sl[2]}, delay is {delay}"))
-            if (not a.sleeps and not a.last and cfg["sleeper"] and not cfg["faults"]
+            if (not a.sleeps and not a.last and cfg["sleeper"]
+                    and all(f[0] == "before_sleep" for f in cfg["faults"] or ())
                     and not any(h[4] != "SLEEP" for h in a.handlers)):
                 # the retry was granted and the next attempt made: the sleeper was owed the delay
                 v.append(("c05.delay-sleeper", f"attempt {a.i}: the next attempt was made but the "
